@@ -104,7 +104,10 @@ try:
                 elif issubclass(v, betterproto.ServiceStub):
                     desc["stubs"][k] = sorted(n for n, f in vars(v).items() if callable(f) and not n.startswith("_"))
                 elif hasattr(v, "__mapping__"):
-                    desc["bases"][k] = sorted(n for n, f in vars(v).items() if callable(f) and not n.startswith("_"))
+                    hs = {}
+                    for route, h in v().__mapping__().items():
+                        hs[route] = {"card": h.cardinality.name, "req": tname(h.request_type), "rep": tname(h.reply_type)}
+                    desc["bases"][k] = hs
             except Exception as ex:
                 out["errors"].append([name, k, type(ex).__name__ + ": " + str(ex)[:200]])
         out["modules"][name[4:] if name != "gen" else ""] = desc
@@ -171,8 +174,10 @@ def descriptor_program(dset_path):
         for s in fd.service:
             services.append({"pkg": fd.package, "name": s.name,
                              "methods": [{"name": me.name, "in": me.input_type.lstrip("."), "out": me.output_type.lstrip("."),
+                                          "inshort": ckey(me.input_type.split(".")[-1]), "outshort": ckey(me.output_type.split(".")[-1]),
                                           "cs": bool(me.client_streaming), "ss": bool(me.server_streaming)} for me in s.method]})
-    return {"msgs": msgs, "enums": enums, "services": services}
+    pkgs = sorted({m["pkg"] for m in msgs + enums})
+    return {"msgs": msgs, "enums": enums, "services": services, "pkgpaths": [p.split(".") if p else [] for p in pkgs]}
 
 
 def ckey(name):
@@ -203,7 +208,12 @@ def observed_model(intro):
                                                             for f in fs]})
         for cls, ms in sorted(d["enums"].items()):
             enums.append({"mod": mod, "cls": ckey(cls), "numbers": [v for _, v in ms]})
-    return {"messages": msgs, "enums": enums}
+    routes = []
+    for mod, d in sorted(intro.get("modules", {}).items()):
+        for base, hs in sorted(d["bases"].items()):
+            for route, h in sorted(hs.items()):
+                routes.append({"mod": mod, "route": route, "card": h["card"], "req": hint_str({"o": "", "t": h["req"]}), "rep": hint_str({"o": "", "t": h["rep"]})})
+    return {"messages": msgs, "enums": enums, "routes": routes}
 
 
 def compile_event(workdir, name, protos, options=(), keep=False):
@@ -212,7 +222,7 @@ def compile_event(workdir, name, protos, options=(), keep=False):
     r = generate(workdir, name, protos, options)
     ev = {"rc": r["rc"], "err": r["err"][-300:] if r["rc"] else "", "imp": "ok", "errors": [], "pydantic": "pydantic_dataclasses" in options,
           "stdmod": "betterproto.lib.pydantic.google.protobuf" if "pydantic_dataclasses" in options else "betterproto.lib.std.google.protobuf",
-          "prog": {"msgs": [], "enums": [], "services": []}, "obs": {"messages": [], "enums": []}, "options": list(options),
+          "prog": {"msgs": [], "enums": [], "services": [], "pkgpaths": []}, "obs": {"messages": [], "enums": [], "routes": []}, "options": list(options),
           "case": {"protos": protos, "options": list(options)}}
     if r["rc"] == 0:
         try:
